@@ -8,6 +8,7 @@ from ..flow import Flow, identity_through
 from .C12 import closure_of_local, only_err_returns
 
 CONFIGS_QUICK = ["K1"]
+WITNESS_PREFIX = "C07"
 CONFIGS_THOROUGH = ["K1", "K3"]
 TECHNIQUE = "static analysis: charset abstract interpretation of the validators, CFG post-dominance / rollback provenance, who-may-write the command buffer (MIR)"
 
@@ -94,6 +95,11 @@ def name_rules(rep, prog, cfg):
     sw = build.blocks[vt["target"]]["t"]
     ok_t = [b for v, b in sw["targets"] if v == 0] if sw["k"] == "switch" else []
     err_t = [b for v, b in sw["targets"] if v == 1] if sw["k"] == "switch" else []
+    if sw["k"] == "switch":       # `if let Err(..)` / `if let Ok(..)` list only one variant
+        if not ok_t and err_t:
+            ok_t = [sw["otherwise"]]
+        if not err_t and ok_t:
+            err_t = [sw["otherwise"]]
     cons = [bb for bb, i, s in build.stmts() if s["k"] == "assign" and s["rv"]["k"] == "agg" and s["rv"].get("adt_name", "").endswith("command::Command")]
     ok = bool(ok_t and err_t and cons) and all(c in reach(g.succs, ok_t) and c not in reach(g.succs, err_t) for c in cons)
     rep.check(ok, "C07.name-alphabet", cfg + "/constructed only when valid", build.loc(build.span),
